@@ -3,21 +3,25 @@
    staged API with a dump after each stage), compared with `Pipeline.analyze_trace` on the same bytes, the same
    configuration, the slot table the implementation exports and the keccak values the harness computed.
 
-   check_case:   0  the final layouts / outcomes are the same (and every dumped stage agrees)
-                 1  different kind of outcome, no dumped stage disagrees (e.g. a stage one side did not reach)
+   check_case:   0  same outcome (layout / kind of failure), same number of watchdog polls, same stage reached, every
+                    dumped stage agrees
+                 1  different kind of outcome or stage reached although no dumped stage disagrees, or the staged run of
+                    the implementation ends differently from its own `analyze` run
                  2  the values handed to the type checker differ      (VM + all_values + unique)
                  3  the lifted values differ                          (the nine passes)
                  4  the number of type variables after assign_vars differs
                  5  the inference sets after infer differ             (the 16 rules)
                  6  all dumped stages agree, the final result does not (unify / abi_type_for / layout)
-                 7  the staged run of the implementation ends differently from its own `analyze` run
+                 7  same outcome, but a different number of watchdog polls (a polled loop is modelled wrongly)
                  8  the keccak oracle of the harness misses a byte string the model hashes
                  9  halting differs (model out of fuel, implementation finished -- or the other way round)
                 55  an intermediate stage differs (the final results agree), but the program is outside the scope of the
                     sorted hook: a state has two storage keys (or symbolic memory offsets) with the same sort key,
                     whose order is the hash map's;  56  the same, and the final results differ
-                58  the watchdog says stop later than `infer`: beyond the model (every earlier stage agrees)
-                >= 10 (below 50)  an end-to-end property, evaluated on the implementation's own layout, fails: see `prop_code` *)
+                57  the implementation's unification needed more rounds than the fuel the cases are evaluated with (32):
+                    not compared (the list-based model is too slow on such blow-ups)
+                >= 10 (below 50)  an end-to-end property, evaluated on the implementation's own output, fails: see
+                    `prop_from` and `check_modes` *)
 From Coq Require Import String.
 From SLX Require Import Base Word256 gen.Constants gen.ValueSig gen.PassOrder SymVal Disasm VM Fold PassesSlots
   PassesSlotsCases TypeExpr Register Rules Unify AbiT Layout Abi TcCases Pipeline.
@@ -27,9 +31,14 @@ Open Scope N_scope.
 
 (* class: 0 = layout, 1 = structured error (stage 0 disassembly / 1 execution / 2 type checker, location, kind),
    2 = panic, 3 = wall-clock allowance exceeded (treated as non-termination) *)
-Inductive xres := XR (class : N) (layout : list entry) (errors : list (N * N * string)).
+Inductive xres := XR (class : N) (layout : list entry) (errors : list (N * N * string)) (polls : N).
+Definition xr_class (x : xres) : N := match x with XR c _ _ _ => c end.
+Definition xr_layout (x : xres) : list entry := match x with XR _ l _ _ => l end.
+Definition xr_errors (x : xres) : list (N * N * string) := match x with XR _ _ e _ => e end.
+Definition xr_polls (x : xres) : N := match x with XR _ _ _ p => p end.
 
 Record xdump := mk_xdump {
+  xd_full : bool;                                   (* false: the stage dumps were left out of the case *)
   xd_values : option (list sv);
   xd_lifted : option (list sv);
   xd_vars : option N;
@@ -63,24 +72,30 @@ Definition err3_eqb (a b : N * N * string) : bool :=
   (fst (fst a) =? fst (fst b)) && (snd (fst a) =? snd (fst b)) && String.eqb (snd a) (snd b).
 Definition xres_eqb (a b : xres) : bool :=
   match a, b with
-  | XR c l e, XR c' l' e' => (c =? c') && list_eqb entry_eqb l l' && list_eqb err3_eqb e e'
+  | XR c l e p, XR c' l' e' p' =>
+      (c =? c') && list_eqb entry_eqb l l' && list_eqb err3_eqb e e' && ((p =? p') || negb ((c =? 0) || (c =? 1)))
   end.
 
-(* does the model's result describe what the implementation returned? *)
-Definition result_matches (r : pipeline_result) (x : xres) : bool :=
+(* does the model's result describe what the implementation returned?  (outcome, and -- whenever the run ended in a
+   layout or a structured error -- the number of watchdog polls made, which also fixes the stage a stop landed in) *)
+Definition outcome_matches (r : pipeline_result) (x : xres) : bool :=
   match r, x with
-  | PLayout l, XR 0 l' _ => list_eqb entry_eqb l l'
-  | PErrDisasm e, XR 1 _ errs =>
+  | PLayout l, XR 0 l' _ _ => list_eqb entry_eqb l l'
+  | PErrDisasm e, XR 1 _ errs _ =>
       match errs with [(0, _, k)] => String.eqb k (dis_err_name e) | _ => false end
-  | PErrVm es, XR 1 _ errs => list_eqb err3_eqb (map (fun e => (1, fst e, exec_err_name (snd e))) es) errs
-  | PErrStopped _, XR 1 _ errs => match errs with [(2, _, k)] => String.eqb k "StoppedByWatchdog" | _ => false end
-  | PErrAbi e, XR 1 _ errs => match errs with [(2, _, k)] => String.eqb k (abi_err_name e) | _ => false end
-  | PErrLift, XR 1 _ errs => forallb (fun e => fst (fst e) =? 2) errs
-  | PErrInfer, XR 1 _ errs => forallb (fun e => fst (fst e) =? 2) errs
-  | PPanic _, XR 2 _ _ => true
-  | PFuelUnify, XR 3 _ _ => true            (* class K2: unification halts on neither side *)
+  | PErrVm es, XR 1 _ errs _ => list_eqb err3_eqb (map (fun e => (1, fst e, exec_err_name (snd e))) es) errs
+  | PErrStopped _, XR 1 _ errs _ => match errs with [(2, _, k)] => String.eqb k "StoppedByWatchdog" | _ => false end
+  | PErrAbi e, XR 1 _ errs _ => match errs with [(2, _, k)] => String.eqb k (abi_err_name e) | _ => false end
+  | PErrLift, XR 1 _ errs _ => forallb (fun e => fst (fst e) =? 2) errs
+  | PErrInfer, XR 1 _ errs _ => forallb (fun e => fst (fst e) =? 2) errs
+  | PPanic _, XR 2 _ _ _ => true
+  | PFuelUnify, XR 3 _ _ _ => true            (* class K2: unification halts on neither side *)
   | _, _ => false
   end.
+Definition polls_match (polls : N) (x : xres) : bool :=
+  match x with XR 0 _ _ p | XR 1 _ _ p => p =? polls | _ => true end.
+Definition result_matches (tr : ptrace) (x : xres) : bool :=
+  outcome_matches (t_result tr) x && polls_match (t_polls tr) x.
 
 (* ---- the keccak oracle covers what the proxy pass can hash (mirror of cmd_pipeline.rs::preimages) ---- *)
 Fixpoint proxy_queries (v : sv) : list (list byte) :=
@@ -112,6 +127,13 @@ Definition opt_cmp {A B} (eqb : A -> B -> bool) (a : option A) (b : option B) (c
 Definition both_some {A B} (a : option A) (b : option B) : bool :=
   match a, b with Some _, Some _ => true | _, _ => false end.
 
+Definition is_some {A} (o : option A) : bool := match o with Some _ => true | None => false end.
+(* which stage the run reached: the same dumps are present on both sides *)
+Definition same_stage (tr : ptrace) (d : xdump) : bool :=
+  negb (xd_full d) ||
+  (Bool.eqb (is_some (t_values tr)) (is_some (xd_values d)) && Bool.eqb (is_some (t_lifted tr)) (is_some (xd_lifted d))
+   && Bool.eqb (is_some (t_vars tr)) (is_some (xd_vars d)) && Bool.eqb (is_some (t_infs tr)) (is_some (xd_infs d))).
+
 Definition stage_code (tr : ptrace) (d : xdump) : N :=
   opt_cmp (list_eqb sv_eqb) (t_values tr) (xd_values d) 2
   (opt_cmp (list_eqb sv_eqb) (t_lifted tr) (xd_lifted d) 3
@@ -128,13 +150,12 @@ Definition raw_code (table : list (N * N)) (c : pcase) (tr : ptrace) : N :=
       if negb (oracle_ok table o (match t_values tr with Some vs => vs | None => [] end)) then 8
       else match stage_code tr d with
            | 0 =>
-               if result_matches r real then (if xres_eqb real (xd_final d) then 0 else 7)
-               else match r with
-                    | PWatchdogBeyondModel => 58
-                    | _ =>
-                        if fuel_result r || match real with XR 3 _ _ => true | _ => false end then 9
-                        else if both_some (t_infs tr) (xd_infs d) then 6 else 1
-                    end
+               if result_matches tr real then
+                 (if negb (xres_eqb real (xd_final d)) then 1 else if same_stage tr d then 0 else 1)
+               else if match r, real with PFuelUnify, XR 0 _ _ _ | PFuelUnify, XR 1 _ _ _ => true | _, _ => false end then 57
+               else if fuel_result r || match real with XR 3 _ _ _ => true | _ => false end then 9
+               else if outcome_matches r real then 7          (* same outcome, another number of polls *)
+               else if both_some (t_infs tr) (xd_infs d) then 6 else 1
            | n => n
            end
   end.
@@ -147,7 +168,6 @@ Definition class_of (tr : ptrace) : N :=
   | PPanic _ => 2
   | PFuelUnify => 3
   | PFuelVm | PFuelFind | PModelBug => 4
-  | PWatchdogBeyondModel => 5
   end.
 
 (* a difference on a program whose order the hook does not determine: 55 when the final results agree all the same
@@ -156,9 +176,9 @@ Definition code_of (table : list (N * N)) (c : pcase) (tr : ptrace) : N :=
   match raw_code table c tr with
   | 0 => 0
   | 8 => 8
-  | 58 => 58
+  | 57 => 57
   | n => if t_determined tr then n
-         else match c with PC _ _ _ _ real _ => if result_matches (t_result tr) real then 55 else 56 end
+         else match c with PC _ _ _ _ real _ => if result_matches tr real then 55 else 56 end
   end.
 
 (* ---- the slot table, indexed ----
@@ -200,21 +220,24 @@ Definition relevant_table (idx : trie) (values : list sv) : list (N * N) :=
   flat_map (fun w => match index_lookup idx w with Some i => [(w, i)] | None => [] end)
            (dedupN [] (flat_map all_consts values)).
 
+(* the fuel the cases are evaluated with: 32 rounds of unification (class 57 beyond that; class K2 never halts) *)
+Definition check_fuels : fuels := mk_fuels (2 ^ 40)%positive 32%nat.
+
 (* the part every evaluation of a case shares: the VM phase and the sub-table for its values *)
 Definition phase_of (idx : trie) (c : pcase) : vm_phase * list (N * N) :=
   match c with
   | PC mode bytes cfg o _ _ =>
-      match vm_phase_of default_fuels bytes cfg with
-      | VmFail r => (VmFail r, [])
+      match vm_phase_of check_fuels bytes cfg with
+      | VmFail r polls => (VmFail r polls, [])
       | VmOk stored polls => (VmOk stored polls, relevant_table idx (unique (all_values mode stored)))
       end
   end.
 
 Definition trace_from (c : pcase) (pt : vm_phase * list (N * N)) : ptrace :=
   match c, fst pt with
-  | PC mode bytes cfg o _ _, VmFail r => no_trace r
+  | PC mode bytes cfg o _ _, VmFail r polls => no_trace polls r
   | PC mode bytes cfg o _ _, VmOk stored polls =>
-      analyze_tc (oracle_keccak o) (snd pt) mode default_fuels cfg (order_determined stored) stored polls
+      analyze_tc (oracle_keccak o) (snd pt) mode check_fuels cfg (order_determined stored) stored polls
   end.
 
 Definition trace_of (idx : trie) (c : pcase) : ptrace * list (N * N) :=
@@ -231,21 +254,41 @@ Definition storage_free_code (bytes : list byte) : bool :=
 Definition literal_keys (stored : list (vstate * list (N * N))) : list N :=
   flat_map (fun s => flat_map (fun p => match as_word (fst p) with Some w => [w] | None => [] end) (sto_known (fst s))) stored.
 
+(* 13  the watchdog had turned to stop (the run made more polls than the stop index) yet the run did not end with the
+       StoppedByWatchdog error                                                                 (pipeline_stop_is_error)
+   14  more than poll_every + 1 polls were made after the watchdog had turned                  (pipeline_stops_within_bound) *)
+Definition watchdog_code (cfg : config) (x : xres) : N :=
+  match stop_at cfg, x with
+  | Some k, XR cls _ errs p =>
+      if (cls =? 0) || (cls =? 1) then
+        if (k <? p) && negb ((cls =? 1) && existsb (fun e => String.eqb (snd e) "StoppedByWatchdog") errs) then 13
+        else if k + poll_every cfg + 1 <? p then 14 else 0
+      else 0
+  | None, _ => 0
+  end.
+
 Definition prop_from (c : pcase) (pt : vm_phase * list (N * N)) : N :=
   match c with
-  | PC mode bytes cfg o (XR 0 l _) _ =>
-      if negb (sorted_entries l) then 10
-      else if storage_free_code bytes && negb (match l with [] => true | _ => false end) then 11
-      else match fst pt with
-           | VmOk stored _ =>
-               if forallb (fun w => match lookup_in (snd pt) w with
-                                    | Some _ => true
-                                    | None => existsb (fun e => e_index e =? w) l
-                                    end) (literal_keys stored)
-               then 0 else 12
-           | VmFail _ => 0
-           end
-  | _ => 0
+  | PC mode bytes cfg o real _ =>
+      match watchdog_code cfg real with
+      | 0 =>
+          match real with
+          | XR 0 l _ _ =>
+              if negb (sorted_entries l) then 10
+              else if storage_free_code bytes && negb (match l with [] => true | _ => false end) then 11
+              else match fst pt with
+                   | VmOk stored _ =>
+                       if forallb (fun w => match lookup_in (snd pt) w with
+                                            | Some _ => true
+                                            | None => existsb (fun e => e_index e =? w) l
+                                            end) (literal_keys stored)
+                       then 0 else 12
+                   | VmFail _ _ => 0
+                   end
+          | _ => 0
+          end
+      | n => n
+      end
   end.
 
 Definition check_case (idx : trie) (c : pcase) : N :=
@@ -256,7 +299,7 @@ Definition check_case (idx : trie) (c : pcase) : N :=
   end.
 
 (* the same, with the coverage class of an agreeing case reported as 1000 + class:
-   class = 0 layout, 1 error, 2 panic, 3 out of fuel (unification), 4 other fuel, 5 beyond the model, and 10 + that when
+   class = 0 layout, 1 error, 2 panic, 3 out of fuel (unification), 4 other fuel, and 10 + that when
    the order of the collected values was not determined by the hook *)
 Definition check_case_cov (idx : trie) (c : pcase) : N :=
   let pt := phase_of idx c in
@@ -264,6 +307,34 @@ Definition check_case_cov (idx : trie) (c : pcase) : N :=
   | 0 => let tr := trace_from c pt in
          match code_of (snd pt) c tr with 0 => 1000 + class_of tr | n => n end
   | n => n
+  end.
+
+(* ---- C17: the same program in strict and in permissive mode ----
+   15  strict mode returned a layout, permissive mode did not return the same layout   (pipeline_strict_success_same_as_permissive)
+   16  a VM error reported in permissive mode is not among those of strict mode        (pipeline_permissive_errors_subset) *)
+Inductive mcase := MC (mode : order_mode) (bytes : list byte) (L : limits) (oracle : list (list byte * N)) (strict perm : xres).
+
+Definition modes_prop (s p : xres) : N :=
+  match s, p with
+  | XR 0 l _ _, XR 0 l' _ _ => if list_eqb entry_eqb l l' then 0 else 15
+  | XR 0 _ _ _, XR 1 _ _ _ => 15
+  | XR 1 _ es _, XR 1 _ ep _ =>
+      if forallb (fun e => negb (fst (fst e) =? 1) || existsb (err3_eqb e) es) ep then 0 else 16
+  | XR 1 _ es _, XR 0 _ _ _ => if existsb (fun e => negb (fst (fst e) =? 1)) es then 16 else 0
+  | _, _ => 0
+  end.
+
+Definition check_modes (idx : trie) (c : mcase) : N :=
+  match c with
+  | MC mode bytes L o strict perm =>
+      match modes_prop strict perm with
+      | 0 =>
+          match check_case idx (PC mode bytes (mk_config' L false) o strict (mk_xdump false None None None None strict)) with
+          | 0 => check_case idx (PC mode bytes (mk_config' L true) o perm (mk_xdump false None None None None perm))
+          | n => n
+          end
+      | n => n
+      end
   end.
 
 (* ---- the Display text used as sort key: (value, format!("{value}")) ---- *)
